@@ -13,7 +13,24 @@ import traceback
 
 import richreports
 from nada_dsl.audit.strict import strict
-from nada_dsl.audit.report import html, type_to_str
+from nada_dsl.audit.report import html
+
+def show_type(t):
+    """the harness's own spelling of an inferred type (independent of the report's type_to_str):
+    classes by name, list[T] recursively, type errors by their message"""
+    import types as _types
+    if isinstance(t, TypeError):
+        return "TypeError: " + str(t)
+    if isinstance(t, _types.GenericAlias) and t.__origin__ is list:
+        return "list[" + show_type(t.__args__[0]) + "]"
+    if isinstance(t, type):
+        return t.__name__
+    import typing as _typing, collections.abc as _abc
+    if _typing.get_origin(t) is _abc.Callable:
+        return "Callable"      # the type given to a defined function's name
+    return "TypeError: type cannot be determined"
+
+
 from nada_dsl.audit.common import SyntaxRestriction, RuleInAncestor, TypeInParent, TypeErrorRoot
 
 L0, L1, R0, R1 = "", "", "", ""
@@ -141,7 +158,7 @@ def node_facts(root):
         r, t = au.get("rules"), au.get("types")
         facts.append([type(a).__name__, getattr(a, "lineno", 0), getattr(a, "col_offset", 0),
                       "restriction" if isinstance(r, SyntaxRestriction) else ("ancestor" if isinstance(r, RuleInAncestor) else None),
-                      None if t is None else ("inparent" if isinstance(t, TypeInParent) else type_to_str(t)),
+                      None if t is None else ("inparent" if isinstance(t, TypeInParent) else show_type(t)),
                       isinstance(t, TypeErrorRoot)])
     return facts
 
